@@ -1,22 +1,11 @@
 (* C07 -- witnesses on the executable instance of the transform state machine (evaluation only):
-   inverse(link=True) fails for Parameter-held parameters; it works for a fixed tensor and then follows
-   in-place updates of the forward transform. *)
+   inverse(link=True) works for Parameter-held parameters (since fix 34360e2: link_ un-shares the
+   _parameters container), for fixed tensors and without link; the inverse follows in-place updates of
+   the forward transform, which keeps its Parameter. *)
 From Coq Require Import List Bool ZArith QArith Qcanon.
 From DV Require Import Base.QcInst Model.TransformState Model.TransformStateRun Model.TransformStateEx
   Gen.TState Model.TransformCfg.
 Import ListNotations.
-
-Definition raises_type_error (h : list rop) (x : rop) : bool :=
-  match snd (x_step gen_cfg (x_run gen_cfg h) x) with
-  | Raised _ _ TypeErr => true
-  | _ => false
-  end.
-
-(* every class shares ParametricTransform.link_: one witness per parameter container *)
-Lemma inverse_link_parameter_raises :
-  raises_type_error [New PV nat CV KLin 0%nat (PkBool PV true)] (Inverse PV nat CV 0%nat true true) = true /\
-  raises_type_error [New PV nat CV KSvf 0%nat (PkTen PV (qv 1 2, 0%nat) true)] (Inverse PV nat CV 0%nat true false) = true.
-Proof. vm_compute. split; reflexivity. Qed.
 
 (* after h, calling object o returns exactly `want` (componentwise) *)
 Definition call_gives (h : list rop) (o : nat) (want : list Qc) : bool :=
@@ -33,4 +22,25 @@ Definition h_nolink : list rop :=
 Lemma inverse_follows_updates :
   call_gives h_link 0%nat (qv 3 (-5)) = true /\ call_gives h_link 1%nat (qv (-3) 5) = true /\
   call_gives h_nolink 0%nat (qv 3 (-5)) = true /\ call_gives h_nolink 1%nat (qv (-3) 5) = true.
+Proof. vm_compute. repeat split; reflexivity. Qed.
+
+(* Parameter-held parameters, linked inverse (.inv): optimiser-style steps before and after *)
+Definition h_link_param : list rop :=
+  [New PV nat CV KLin 0%nat (PkBool PV true); Edit PV nat CV 0%nat (qv 1 2, 0%nat);
+   Inverse PV nat CV 0%nat true true; Edit PV nat CV 0%nat (qv 3 (-5), 0%nat)].
+Definition h_link_param_svf : list rop :=
+  [New PV nat CV KSvf 0%nat (PkTen PV (qv 1 2, 0%nat) true); Call PV nat CV 0%nat;
+   Inverse PV nat CV 0%nat true true; Edit PV nat CV 0%nat (qv 3 (-5), 0%nat)].
+Definition keeps_parameter (h : list rop) (o : nat) : bool :=
+  let s := x_run gen_cfg h in
+  match get_obj PV nat CV s o with
+  | Some ob => match get_params PV nat CV s ob with Some (VTen _ true) => true | _ => false end
+  | None => false
+  end.
+
+Lemma inverse_link_parameter_follows :
+  call_gives h_link_param 0%nat (qv 3 (-5)) = true /\ call_gives h_link_param 1%nat (qv (-3) 5) = true /\
+  keeps_parameter h_link_param 0%nat = true /\
+  call_gives h_link_param_svf 0%nat (qv 3 (-5)) = true /\ call_gives h_link_param_svf 1%nat (qv (-3) 5) = true /\
+  keeps_parameter h_link_param_svf 0%nat = true.
 Proof. vm_compute. repeat split; reflexivity. Qed.
